@@ -136,7 +136,7 @@ COLORS = ["#222", "#1f77b4", "#ABC", "#a1B2c3", "fff", "0f0f0f"]
 
 
 def make_dataset(rng, kind, n=None):
-    n = n or rng.randint(1, 12)
+    n = n or (rng.randint(1, 12) if rng.random() < 0.9 else rng.randint(27, 45))      # > 26 items: two-letter TeX names
     data = []
     if kind == "linear":
         base = rng.choice([0, 100, -50, 1000])
@@ -179,6 +179,8 @@ def make_options(rng, kind, data, ns_min=0):
          "labelPadding": rng.choice([{"left": 2, "right": 2, "top": 3, "bottom": 2}, {"left": 0, "right": 5, "top": 1, "bottom": 4},
                                      {"left": 8, "right": 8, "top": 2, "bottom": 2}, {"left": 1, "right": 1, "top": 7, "bottom": 6}]),
          "dotRadius": rng.choice([3, 5])}
+    if rng.random() < 0.3:
+        o["margin"] = rng.choice([{"left": 0, "right": 0, "top": 0, "bottom": 0}, {"left": 35, "right": 5, "top": 12, "bottom": 48}])
     colkind = rng.choice(["default", "hex3", "hex6", "list", "func"])
     if colkind == "hex3":
         o["dotColor"] = o["linkColor"] = "#a1f"
@@ -246,8 +248,9 @@ def sval(s):
 def drawing_record(backend, tl, doc, opts, data, kind):
     direction = opts["direction"]
     horiz = direction in ("up", "down")
-    iw = opts["initialWidth"] - 40
-    ih = opts["initialHeight"] - 40
+    mg = opts.get("margin", {"left": 20, "right": 20, "top": 20, "bottom": 20})
+    iw = opts["initialWidth"] - mg["left"] - mg["right"]
+    ih = opts["initialHeight"] - mg["top"] - mg["bottom"]
     L = iw if horiz else ih
     scale = tl.options["scale"]
     dom = scale.domain()
